@@ -128,16 +128,36 @@ def classify(ctx, res, what):
 
 
 # ----------------------------------------------------------------------------------------------- table rules
-def dispatch_types(fi, var):
-    """GlobalToken members compared with <var>.token_type in the if-chain of a function"""
+def dispatch_types(repo, fi, _seen=None):
+    """GlobalToken members a function dispatches on: every `GlobalToken.<MEMBER>` it mentions (comparisons, membership tuples,
+    dictionary keys of a handler table ...), followed into the helpers of the same class it calls and the class / module level
+    tables it reads.  How the dispatch is spelled is the implementation's business."""
+    _seen = _seen if _seen is not None else set()
+    if fi.qualname in _seen:
+        return set()
+    _seen.add(fi.qualname)
     out = set()
+    names = set()
     for n in ast.walk(fi.node):
-        if isinstance(n, ast.Compare) and isinstance(n.left, ast.Attribute) and n.left.attr == "token_type" \
-                and isinstance(n.left.value, ast.Name) and n.left.value.id == var:
-            for c in n.comparators:
-                for m in ast.walk(c):
-                    if isinstance(m, ast.Attribute) and isinstance(m.value, ast.Name) and m.value.id == "GlobalToken":
-                        out.add(m.attr)
+        if isinstance(n, ast.Attribute) and isinstance(n.value, ast.Name) and n.value.id == "GlobalToken":
+            out.add(n.attr)
+        if isinstance(n, ast.Call) and isinstance(n.func, ast.Attribute) and isinstance(n.func.value, ast.Name) and n.func.value.id in ("cls", "self", fi.cls.name if fi.cls else ""):
+            m = repo.find_method(fi.cls, n.func.attr) if fi.cls else None
+            if m is not None:
+                out |= dispatch_types(repo, m, _seen)
+        if isinstance(n, ast.Name):
+            names.add(n.id)
+        if isinstance(n, ast.Attribute):
+            names.add(n.attr)
+    pool = dict(fi.module.assigns)
+    if fi.cls is not None:
+        pool.update(fi.cls.assigns)
+    for nm in names:
+        e = pool.get(nm)
+        if e is not None:
+            for x in ast.walk(e):
+                if isinstance(x, ast.Attribute) and isinstance(x.value, ast.Name) and x.value.id == "GlobalToken":
+                    out.add(x.attr)
     return out
 
 
@@ -145,11 +165,12 @@ def table_rules(ctx, repo, lrrp, mb):
     rd, wr = repo.find_method(mb, "read_document"), repo.find_method(mb, "write_part")
     ctx.saw_func(rd)
     ctx.saw_func(wr)
-    r_types, w_types = dispatch_types(rd, "token_config"), dispatch_types(wr, "part")
+    r_types, w_types = dispatch_types(repo, rd), dispatch_types(repo, wr)
     if len(r_types) < 5 or len(w_types) < 5:
         raise AnalysisError(f"type dispatch of read_document / write_part not recognised ({sorted(r_types)} / {sorted(w_types)})")
     attrs = repo.class_const(lrrp, "ATTRIBUTE_TOKENS")
     implemented = {}
+    one_sided = {}
     for tn in TABLES:
         tbl = repo.class_const(lrrp, tn)
         if not isinstance(tbl, dict) or not tbl:
@@ -160,13 +181,17 @@ def table_rules(ctx, repo, lrrp, mb):
             key = f"LRRP.{tn}[{tid:#04x}] {rec.fields['name']} ({ty})"
             ctx.ob("table/single-octet-id", key, isinstance(tid, int) and 0 < tid < 128,
                    "element ids are written as one octet (bytes([id])) and read as a uintvar: they agree only below 128", lrrp.loc)
-            ctx.ob("table/reader-writer-agree", key, (ty in r_types) == (ty in w_types),
-                   f"reader {'handles' if ty in r_types else 'rejects'} {ty}, writer {'handles' if ty in w_types else 'rejects'} it", rd.loc)
+            if (ty in r_types) == (ty in w_types):
+                ctx.ob("table/reader-writer-agree", key, True, f"both {'handle' if ty in r_types else 'reject'} {ty}", rd.loc)
+            else:
+                # mentioned by one side only: decided by interpretation (api_rules: the writer must reject it, or the round trip must work)
+                one_sided[(tn, tid)] = rec
             missing = [a for a in (rec.fields.get("attributes") or []) if a not in attrs]
             ctx.ob("table/attribute-defined", key, not missing, f"attribute ids {missing} are not in ATTRIBUTE_TOKENS" if missing else "", lrrp.loc)
             if ty in r_types and ty in w_types:
                 implemented[(tn, tid)] = rec
     ctx.extra["implemented_tokens"] = len(implemented)
+    ctx.extra["_one_sided"] = one_sided
     ctx.extra["not_implemented"] = sorted({r.fields["_type"].name for tn in TABLES for r in repo.class_const(lrrp, tn).values()} - (r_types & w_types))
     return implemented, attrs
 
@@ -483,6 +508,32 @@ def api_rules(ctx, repo, mb, lrrp, docid, implemented, attrs):
                     key = f"{'request' if is_request else 'report'} {tid:#04x} {rec.fields['name']} ({rec.fields['_type'].name}) | value {vlabel} | {alabel}"
                     with ctx.guard(key):
                         roundtrip_docs(ctx, repo, mb, build, key, "api/token-roundtrip", gt.loc)
+    # token types that only one of reader / writer mentions: the writer must reject the token (any exception), or the round trip must work
+    for (tn, tid), rec in sorted(ctx.extra.pop("_one_sided", {}).items()):
+        is_request = tn.startswith("QUERY") or tn == "COMMON_ELEMENT_TOKENS"
+        key = f"LRRP.{tn}[{tid:#04x}] {rec.fields['name']} ({rec.fields['_type'].name})"
+        I = mk_interp(repo)
+        ab = repo.find_method(mb, "as_bytes")
+
+        def wr_only(st, rec=rec, tid=tid, is_request=is_request):
+            I.st = st
+            d = mk_doc(I, repo, lrrp, docid, REQUEST_DOC if is_request else REPORT_DOC)
+            t = I.call(gt, [L, tid, b"\x00" * 8, {}], {"is_request": is_request})
+            d.attrs["parts"].append(t)
+            return I.call(ab, [ClassRef(mb), d], {})
+        res = explore(wr_only, max_paths=16)
+        accepted = [1 for _, (k, v) in res if k == "ok"]
+        if not accepted:
+            ctx.ob("table/reader-writer-agree", key, True, "the writer rejects the token", gt.loc)
+            continue
+
+        def build(I_, rec=rec, tid=tid, is_request=is_request):
+            d = mk_doc(I_, repo, lrrp, docid, REQUEST_DOC if is_request else REPORT_DOC)
+            d.attrs["parts"].append(I_.call(gt, [L, tid, b"\x00" * 8, {}], {"is_request": is_request}))
+            return [d], None
+        with ctx.guard(key):
+            roundtrip_docs(ctx, repo, mb, build, key, "table/reader-writer-agree", gt.loc)
+    ctx.extra.pop("_one_sided", None)
     # long bodies: request-id + n x circle-2d, and two such documents in one buffer
     for n, two in ((11, False), (12, False), (11, True), (30, False)):
         def build_long(I, n=n, two=two):
